@@ -31,14 +31,14 @@ import (
 // ---------------------------------------------------------------------
 
 type ubound struct {
-	a  int // coefficient of rest (0 or 1)
-	k  int64
-	ok bool
+	a   int // coefficient of rest (0 or 1)
+	k   int64
+	ok  bool
 	why string
 }
 
 type lexInv struct {
-	w                        *World
+	w                         *World
 	fPos, fStart, fWidth, fIn *types.Var
 }
 
